@@ -361,10 +361,20 @@ func writeReplay(chk Check, env *Env, c *Case, o *Outcome, v *Violation) (string
 	os.WriteFile(path, b, 0o644)
 	// Confirm in a fresh execution that the replay reproduces the violation.
 	o2, err := safeRun(chk, env, &rc)
-	if err != nil || hasKey(o2, v.Key) == nil {
+	if err != nil {
 		return path, false
 	}
-	return path, true
+	if hasKey(o2, v.Key) != nil {
+		return path, true
+	}
+	// Same oracle failing at a neighbouring site still reproduces the violation
+	// (long -debugdir runs are not event-for-event identical between executions).
+	for _, x := range violations(o2) {
+		if x.Class == v.Class {
+			return path, true
+		}
+	}
+	return path, false
 }
 
 func sanitize(s string) string {
